@@ -32,7 +32,7 @@ ASSUMPTIONS = [
     'the reference is the interpreter\'s own exec/eval in a plain dict namespace, run in a sibling forked process',
 ]
 TIERS = {
-    'quick': {'runs': 1500, 'wall_cap': 75, 'chunk': 12, 'min_budget': 50, 'min_each': 25},
+    'quick': {'runs': 3500, 'wall_cap': 75, 'chunk': 12, 'min_budget': 50, 'min_each': 25},
     'thorough': {'runs': 60000, 'wall_cap': 900, 'chunk': 24, 'min_budget': 200, 'min_each': 60},
 }
 
